@@ -143,6 +143,14 @@ def close (a b : Float) : Bool :=
   else if a.isInf || b.isInf then false
   else Float.abs (a - b) ≤ 1e-9 * (if Float.abs b > 1.0 then Float.abs b else 1.0)
 
+/-- double range: a single scale factor below ~1e-308 underflows (the rescaled classes then answer
+-inf or lose digits in the denormal range).  Rounding/underflow is outside the exact-arithmetic
+model, so numeric predicates are judged only when every scale factor of the (bit-identical) Float
+run is ≥ 1e-250. -/
+def rangeOk (t : DTables) (bps : List Nat) : Bool :=
+  let m := t.model
+  (rescForward m.p m.e0 (mkSites m.es bps)).scales.all (fun c => c ≥ 1e-250)
+
 /-- verdict on a log-likelihood value answered by the implementation for tables `t` -/
 def llCheck (t : DTables) (bps : List Nat) (x : Float) : String :=
   if !t.nonneg then "-" else
@@ -150,6 +158,7 @@ def llCheck (t : DTables) (bps : List Nat) (x : Float) : String :=
   | none => "-"
   | some q =>
     if q == 0 then (if x == -(1.0 / 0.0) then "ok" else "FAIL:path_sum_zero")
+    else if !rangeOk t bps then "-"
     else if close x (ratLog q) then "ok" else "FAIL:path_sum"
 
 def isExc (l : List String) : Bool := match l with | [a] => a.startsWith "exc:" | _ => false
@@ -182,6 +191,13 @@ def llVerdict (o : Obj) (impl : Option (List String)) : String :=
       | some x => both (histCheck o ans (specOf o .logLik)) (if o.stale then "-" else llCheck o.tab o.bps x)
     | _ => "FAIL:parse"
 
+/-- tolerance on a posterior row sum: 1e-9, widened for the log-space class whose exponent
+`f + b - partial` carries an absolute rounding error proportional to |log-likelihood| -/
+def sumTol (ll : Float) : Float := 1e-9 + (if ll.isFinite then Float.abs ll * 2e-13 else 0.0)
+def sumsToOne (ll : Float) (r : List Float) : Bool :=
+  let s := r.foldl (· + ·) 0.0
+  !s.isNaN && Float.abs (s - 1.0) ≤ sumTol ll
+
 /-- posterior rows answered by the implementation -/
 def postVerdict (o : Obj) (impl : Option (List String)) (rows : Option (List Nat)) : String :=
   match impl with
@@ -201,7 +217,7 @@ def postVerdict (o : Obj) (impl : Option (List String)) (rows : Option (List Nat
         -- its argument, forward and backward passes then reset at different positions
         (match o.core with
          | .resc _ =>
-           if m.all (fun r => r.all Float.isFinite) && !(m.all (fun r => close (r.foldl (· + ·) 0.0) 1.0))
+           if m.all (fun r => r.all Float.isFinite) && !(m.all (fun r => sumsToOne o.logLik r))
            then "FAIL:posterior_invalid_breaks" else "-"
          | _ => "-") else
       -- double range: with emissions below 1e-100 forward entries underflow to 0 while backward entries
@@ -210,7 +226,7 @@ def postVerdict (o : Obj) (impl : Option (List String)) (rows : Option (List Nat
       match exactLik t o.bps with
       | some q =>
         if q == 0 then "-" else
-        if !(m.all (fun r => r.all (fun x => x ≥ 0.0) && close (r.foldl (· + ·) 0.0) 1.0)) then "FAIL:posterior_prob" else
+        if !(m.all (fun r => r.all (fun x => x ≥ 0.0) && sumsToOne o.logLik r)) then "FAIL:posterior_prob" else
         match exactPost t o.bps with
         | none => "ok"
         | some ex =>
@@ -220,7 +236,7 @@ def postVerdict (o : Obj) (impl : Option (List String)) (rows : Option (List Nat
           else "FAIL:posterior_marginal"
       | none =>
         -- too long for the exact reference: normalisation only
-        if m.all (fun r => r.all (fun x => x ≥ 0.0) && close (r.foldl (· + ·) 0.0) 1.0) then "ok"
+        if m.all (fun r => r.all (fun x => x ≥ 0.0) && sumsToOne o.logLik r) then "ok"
         else if m.any (fun r => r.any Float.isNaN) then "-"   -- likelihood underflowed to 0: posterior undefined
         else "FAIL:posterior_prob"
 
@@ -264,7 +280,9 @@ def agreeVerdict (os : List (Option Obj)) (impl : Option (List String)) : String
       | none => "FAIL:parse"
       | some xs =>
         let x0 := xs.head!
-        if !(xs.all (fun x => close x x0 && close x0 x)) then "FAIL:cross_algo"
+        let zeroLik := match exactLik o0.tab o0.bps with | some q => q == 0 | none => false
+        if !zeroLik && !rangeOk o0.tab o0.bps then "-"
+        else if !(xs.all (fun x => close x x0 && close x0 x)) then "FAIL:cross_algo"
         else
           let hs := prs.map (fun (o, a) => histCheck o [a] (specOf o .logLik))
           match hs.find? (·.startsWith "FAIL") with
